@@ -180,6 +180,13 @@ func (r *Result) overMemory() bool {
 	if ms.HeapAlloc < r.memBudget {
 		return false
 	}
+	// HeapAlloc includes garbage not yet collected (harnesses rebuild whole agents per
+	// transition and run with a high GOGC): collect, then judge the LIVE heap.
+	runtime.GC()
+	runtime.ReadMemStats(&ms)
+	if ms.HeapAlloc < r.memBudget/2 {
+		return false
+	}
 	r.mu.Lock()
 	r.memHit = true
 	r.Exhaustive = false
